@@ -44,7 +44,7 @@ func rewriteV6Options(data []byte, pref, valid uint32) {
 			// IA_NA: IAID(4) + T1(4) + T2(4) + IA options
 			if len(optData) >= 12 {
 				binary.BigEndian.PutUint32(optData[4:8], pref/2)
-				binary.BigEndian.PutUint32(optData[8:12], pref*4/5)
+				binary.BigEndian.PutUint32(optData[8:12], uint32(uint64(pref)*4/5))
 				if len(optData) > 12 {
 					rewriteV6Options(optData[12:], pref, valid)
 				}
@@ -53,7 +53,7 @@ func rewriteV6Options(data []byte, pref, valid uint32) {
 			// IA_PD: IAID(4) + T1(4) + T2(4) + IA options
 			if len(optData) >= 12 {
 				binary.BigEndian.PutUint32(optData[4:8], pref/2)
-				binary.BigEndian.PutUint32(optData[8:12], pref*4/5)
+				binary.BigEndian.PutUint32(optData[8:12], uint32(uint64(pref)*4/5))
 				if len(optData) > 12 {
 					rewriteV6Options(optData[12:], pref, valid)
 				}
